@@ -64,20 +64,37 @@ package engine
 //@ func (e *engine) mergeDelta()
 //@   trusted
 //@   requires e != nil
-//@   modifies factstore.view(e.store)
+//@   modifies factstore.view(e.store), factstore.fcount(e.store)
 //@   ensures err == nil ==> deltaInStore(e)
 
-// One evaluation step of a clause reads the stores (external predicates aside). ASSUMED.
+// One evaluation step of a clause reads the stores (external predicates aside): that frame is ASSUMED. Checked:
+// every early exit reports an error, and while the join continues the number of partial solutions stays within
+// the created-fact limit.
 //@ func (e *engine) oneStepEvalClause(clause)
-//@   trusted
 //@   requires e != nil
 //@   modifies nothing
+//@   opt assumeframe
+//@   opt nosafety
+//@   guard return in loop 1: err != nil
+//@   guard return in loop 3: err != nil
+//@   loop 2 atback e.options.createdFactLimit > 0 ==> len(newsolutions) <= e.options.createdFactLimit
 
 //@ func makeDeltaRules(decls, predToRules)
 //@   trusted
 //@   modifies nothing
 
+// C17: every early exit of the first round and of the incremental rounds reports an error, and while rounds
+// continue the store stays within the total fact limit.
 //@ func (e *engine) eval()
 //@   requires e != nil && ewf(e)
 //@   opt nosafety
+//@   guard return in loop 1: err != nil
+//@   guard return in loop 5: err != nil
 //@   loop 5 invariant deltaInStore(e)
+//@   loop 5 atback e.options.totalFactLimit > 0 ==> factstore.fcount(e.store) <= e.options.totalFactLimit
+
+// The total limit handed to the rounds is the number of facts present at the start plus the created-fact limit.
+//@ func EvalStratifiedProgramWithStats(programInfo, strata, predToStratum, store, options)
+//@   requires store != nil
+//@   opt nosafety
+//@   guard call evalStrata: e.options.createdFactLimit > 0 ==> e.options.totalFactLimit == factstore.fcount(e.store) + e.options.createdFactLimit
